@@ -33,7 +33,9 @@ STATES = ["none", "connected", "ready", "waiting_dwa", "disconnecting", "closed"
           # a watchdog request of the node is outstanding when the peer's DPR arrives; the DWA comes afterwards
           "disconnecting_late_dwa"]
 PLANS = ["prompt", "late", "dup", "unknown", "wrong_e2e", "wrong_hbh", "never", "dup3", "late2"]
-CALLBACKS = ["default", "first", "last", "seeded"]
+# "consuming" / "reordering": the callback treats the list it is handed as its own (empties it after choosing, sorts
+# it in place) - legal, and without consequence for anybody else
+CALLBACKS = ["default", "first", "last", "seeded", "consuming", "reordering"]
 R1, R2 = "verif.example", "other.example"
 
 
@@ -142,6 +144,11 @@ class Case:
                 else:
                     pick = peers[rng.randrange(len(peers))]
                 self.offered.append((getattr(message, "session_id", None), names, pick.node_name))
+                if cb_kind == "consuming":
+                    del peers[:]
+                elif cb_kind == "reordering":
+                    peers.sort(key=lambda p: p.node_name, reverse=True)
+                    peers.append(peers[0])
                 return pick
             self.node.peer_route_select_func = cb
         else:
